@@ -1272,11 +1272,18 @@ def m_astuple(interp, fr, obj, **kw):
     return _astuple(interp, obj)
 
 
+def m_assert_never(interp, fr, *args):
+    # typing.assert_never: at run time it raises AssertionError whatever it is given
+    raise PyRaise(AssertionError, "Expected code to be unreachable")
+
+
 def base_models():
     import builtins
     import contextlib as _ctx
     import dataclasses as _dc
+    import typing as _typing
     m = {
+        _typing.assert_never: m_assert_never,
         _dc.is_dataclass: m_is_dataclass,
         _dc.astuple: m_astuple,
         len: m_len,
